@@ -47,7 +47,7 @@ func (w *World) GoCall(ctx context.Context, f func(ctx context.Context) (interfa
 	go func() {
 		defer func() {
 			if r := recover(); r != nil {
-				c.Panic = fmt.Sprint(r)
+				c.Panic = notePanic(r)
 			}
 			c.Done = true
 		}()
